@@ -30,7 +30,8 @@
 (***************************************************************************)
 EXTENDS Integers, Sequences, FiniteSets, TLC
 
-CONSTANTS Threads,        \* API thread ids, 1..N
+CONSTANTS ForeignKeys,    \* keys whose address a foreign socket holds: binding them fails (the call must still return)
+          Threads,        \* API thread ids, 1..N
           Keys,           \* listener keys; KindOf[k] \in {"s","p"} (stream / packet); same manager lock for all
           KindOf,
           ScriptChoices,  \* set of functions Threads -> Seq(op); op = [a |-> "listen"|"close"|"accept", k, h]
@@ -112,10 +113,11 @@ L2(t) == /\ pc[t] = "L2"
                 h == Op(t).h
                 needBind == obj[o].sock = 0 IN
             /\ obj[o].lock = 0
-            /\ IF needBind /\ BoundElsewhere(k)
-               THEN \* bind error (EADDRINUSE): the call fails, nothing changes
-                    /\ bad' = bad \cup {"listen-failed"}
-                    /\ UNCHANGED <<obj, sock, nsock, nch, gor, hd>>
+            /\ IF needBind /\ (BoundElsewhere(k) \/ k \in ForeignKeys)
+               THEN \* bind error (EADDRINUSE): the call fails and returns; the handle slot is marked failed
+                    /\ bad' = IF k \in ForeignKeys THEN bad ELSE bad \cup {"listen-failed"}
+                    /\ hd' = [hd EXCEPT ![h] = [NoHd EXCEPT !.st = "failed"]]
+                    /\ UNCHANGED <<obj, sock, nsock, nch, gor>>
                ELSE /\ IF needBind
                        THEN /\ nsock < MaxSock
                             /\ nsock' = nsock + 1
@@ -144,7 +146,7 @@ C1(t) == /\ pc[t] = "idle" /\ HasOp(t) /\ Op(t).a = "close"
          /\ LET h == Op(t).h IN
             /\ hd[h].st # "none"
             /\ hd[h].lock = 0
-            /\ IF hd[h].kind = "s" /\ hd[h].chNil
+            /\ IF hd[h].st = "failed" \/ (hd[h].kind = "s" /\ hd[h].chNil)
                THEN \* already closed: returns at once
                     /\ Finish(t) /\ UNCHANGED hd
                ELSE /\ hd' = [hd EXCEPT ![h].lock = t, ![h].chNil = TRUE, ![h].closeCh = TRUE, ![h].onClose = FALSE]
@@ -203,9 +205,14 @@ C4(t) == /\ pc[t] = "C4"
 
 (* ------------------------- accept / read (API side) ---------------------- *)
 \* listeners.go:83-86 snapshot of acceptCh under the handle lock / start of ReadFrom
+\* a script step on a handle whose listen failed is skipped by the driver
+SkipFailed(t) == /\ pc[t] = "idle" /\ HasOp(t) /\ Op(t).a = "accept" /\ hd[Op(t).h].st = "failed"
+                 /\ Finish(t) /\ Step(t, "Skip")
+                 /\ UNCHANGED <<script, tobj, lch, tafter, mgrLock, mgrMap, obj, nobj, sock, nsock, chClosed, nch, hd, gor, fate, nitems, bad>>
+
 A1(t) == /\ pc[t] = "idle" /\ HasOp(t) /\ Op(t).a = "accept"
          /\ LET h == Op(t).h IN
-            /\ hd[h].st # "none"
+            /\ hd[h].st \notin {"none", "failed"}
             /\ hd[h].kind = "p" \/ hd[h].lock = 0
             /\ tafter' = [tafter EXCEPT ![t] = hd[h].closeDone]
             /\ lch' = [lch EXCEPT ![t] = IF hd[h].kind = "s" /\ hd[h].chNil THEN 0 ELSE hd[h].ch]
@@ -326,7 +333,7 @@ AllDone == \A t \in Threads : pc[t] = "idle" /\ ~HasOp(t)
 Parked(t) == pc[t] = "A2" /\ ~hd[Op(t).h].closeCh
 Terminal == (\A t \in Threads : (pc[t] = "idle" /\ ~HasOp(t)) \/ Parked(t)) /\ UNCHANGED vars
 
-ThreadStep == \E t \in Threads : L1(t) \/ L2(t) \/ C1(t) \/ C2(t) \/ C4(t) \/ A1(t) \/ A2recv(t) \/ A2closed(t)
+ThreadStep == \E t \in Threads : SkipFailed(t) \/ L1(t) \/ L2(t) \/ C1(t) \/ C2(t) \/ C4(t) \/ A1(t) \/ A2recv(t) \/ A2closed(t)
 GorStep == \E g \in Socks : Gtop(g) \/ Gaccept(g) \/ Ggiveup(g) \/ Pread(g) \/ Pdone(g)
 EnvStep == \E k \in Keys : Connect(k)
 
@@ -343,7 +350,7 @@ GorCanMove(g) ==
                              (~sock[s].open \/ Len(sock[s].q) > 0)
   \/ gor[g].pc = "sel" /\ gor[g].sdone \in chClosed
 
-AllHandlesClosed == \A h \in HS : hd[h].st \in {"none", "closed"}
+AllHandlesClosed == \A h \in HS : hd[h].st \in {"none", "closed", "failed"}
 Quiet == AllDone /\ \A g \in Socks : ~GorCanMove(g)
 
 \* C12: exactly-once delivery, closed handles stay closed, other handles undisturbed
@@ -354,7 +361,9 @@ CleanAfterAllClosed ==
      /\ \A s \in Socks : ~sock[s].open
      /\ \A g \in Socks : gor[g].pc \in {"none", "done"}
      /\ \A i \in Items : fate[i].st # "held"
-     /\ \A k \in Keys : mgrMap[k] = 0
+     \* the map may keep an idle entry for an address whose bind failed (listeners.go:368-373 stores the entry before
+     \* Acquire); it holds no socket and no reference, and the next listen on the address re-uses it
+     /\ \A k \in Keys : mgrMap[k] = 0 \/ (obj[mgrMap[k]].count = 0 /\ obj[mgrMap[k]].sock = 0)
 \* C13/C11: sharing is never broken: a listen on a key never fails while the manager itself holds the address
 ListenNeverFails == "listen-failed" \notin bad
 \* C13: every call returns (deadlock freedom is TLC's deadlock check; this is the liveness form)
